@@ -237,7 +237,7 @@ func checkC09(e *Env) {
 	// "given a working source": a source that stays installed, failed during an earlier call and
 	// works during this one is a working source
 	transientCalls := e.transientHistories(drv, "C09", e.pick(40, 600), func(c *transientCall) {
-		if why := c.workingSourceVerdict(); why != "" && c.res.Err != nil {
+		if why := c.workingSourceVerdict(); why != "" && (c.res.Err != nil || c.res.Panic != "") {
 			e.Violate(&Violation{What: "accepted word count with a source that works during the call: " + why, Ops: c.ops[:c.i+1], Observed: c.res, Detail: historyNote})
 		}
 	})
